@@ -216,11 +216,24 @@ Definition update_instance (c : cfg) (hashf : skey -> N) (a : actor) (k : skey) 
       (a4, ut)
   end.
 
-(** [remove_client_instance] (core.rs:547-555) *)
+(** [remove_client_instance] (core.rs:547-561, after the repair "RemoveClient must not remove
+    persistent instances") *)
+Definition stored (a : actor) (k : skey) (ik : ikey) : option inst :=
+  match sget k (a_svcs a) with
+  | Some s => iget ik (s_insts s)
+  | None => None
+  end.
+
 Fixpoint remove_keys (c : cfg) (a : actor) (cl : N) (keys : list fkey) : actor :=
   match keys with
   | [] => a
-  | (k, ik) :: ks => remove_keys c (fst (fst (remove_instance c a k ik (Some cl)))) cl ks
+  | (k, ik) :: ks =>
+      match stored a k ik with
+      | Some i =>
+          if negb (i_ephemeral i) then remove_keys c a cl ks
+          else remove_keys c (fst (fst (remove_instance c a k ik (Some cl)))) cl ks
+      | None => remove_keys c (fst (fst (remove_instance c a k ik (Some cl)))) cl ks
+      end
   end.
 
 Definition remove_client_instance (c : cfg) (a : actor) (cl : N) : actor :=
@@ -273,30 +286,28 @@ Definition clear_timeout_instance_metadata (a : actor) : actor :=
 
 (** [NamingActor::time_check] (core.rs:686-726) over every service; the additions to
     [empty_service_set] / [instance_metadate_set] are collected in service order *)
-Definition tc_result (c : cfg) (now : N) (e : skey * service) : skey * (service * list ikey * list ikey) :=
-  (fst e, svc_time_check now (snd e) (now - c_health c) (now - c_inst c)).
+Definition tc_svc (c : cfg) (now : N) (s : service) : service * list ikey * list ikey :=
+  svc_time_check now s (now - c_health c) (now - c_inst c).
 
-Definition tc_empty_adds (c : cfg) (now : N) (r : skey * (service * list ikey * list ikey)) : list (N * skey) :=
-  let '(k, (s', _, _)) := r in
-  if (s_size s' <=? 0)%Z then [(now + c_svc c, k)] else [].
+Definition tc_empty_adds (c : cfg) (now : N) (e : skey * service) : list (N * skey) :=
+  if (s_size (fst (fst (tc_svc c now (snd e)))) <=? 0)%Z then [(now + c_svc c, fst e)] else [].
 
-Definition tc_meta_adds (c : cfg) (now : N) (r : skey * (service * list ikey * list ikey)) : list (N * fkey) :=
-  let '(k, (s', rlist, _)) := r in
+Definition tc_meta_adds (c : cfg) (now : N) (e : skey * service) : list (N * fkey) :=
+  let s' := fst (fst (tc_svc c now (snd e))) in
   flat_map (fun ik => match mget ik (s_meta s') with
-                      | Some _ => [(now + c_meta c, (k, ik))]
-                      | None => [] end) rlist.
+                      | Some _ => [(now + c_meta c, (fst e, ik))]
+                      | None => [] end) (snd (fst (tc_svc c now (snd e)))).
 
 Definition time_check (c : cfg) (a : actor) : actor :=
   let now := a_now a in
-  let results := map (tc_result c now) (a_svcs a) in
-  mkActor (map (fun r => (fst r, fst (fst (snd r)))) results) (a_clients a) (a_index a)
-          (a_empty a ++ flat_map (tc_empty_adds c now) results)
-          (a_metaset a ++ flat_map (tc_meta_adds c now) results)
+  mkActor (map (fun e => (fst e, fst (fst (tc_svc c now (snd e))))) (a_svcs a)) (a_clients a) (a_index a)
+          (a_empty a ++ flat_map (tc_empty_adds c now) (a_svcs a))
+          (a_metaset a ++ flat_map (tc_meta_adds c now) (a_svcs a))
           (a_range a) (a_now a).
 
 (** [refresh_process_range] (core.rs:1145-1155) *)
 Definition refresh_process_range (hashf : skey -> N) (a : actor) (r : N * N) : actor :=
-  mkActor (map (fun e => if is_range r (hashf (fst e)) then (fst e, svc_refresh (snd e)) else e) (a_svcs a))
+  mkActor (map (fun e => (fst e, if is_range r (hashf (fst e)) then svc_refresh (snd e) else snd e)) (a_svcs a))
           (a_clients a) (a_index a) (a_empty a) (a_metaset a) (Some r) (a_now a).
 
 (** [update_perpetual_health] (core.rs:758-780) *)
